@@ -48,7 +48,8 @@ BORROW = {
     "C10": [("C01", "r01_13"), ("C15", "r15_1"), ("C15", "r15_5"), ("C07", "r07_8")] + CLEAN + CHAIN,
     "C14": [("C07", "r07_11"), ("C18", "r18_13")] + ALGEBRA,
     # the complement of a shape integrates the reversed boundary: reversal must be exact for every degree
-    "C04": ALGEBRA + [("C18", "r18_13"), ("C05", "r05_2")],
+    # ... and the exact rational moments need exact quadrature points (no intermediate point rounded to the cap)
+    "C04": ALGEBRA + [("C18", "r18_13"), ("C05", "r05_2"), ("C13", "r13_3")],
     "C09": ALGEBRA,
     # the containment of two simple shapes answers through an axis-aligned shortcut (disjoint boxes) or through the
     # general branch, depending on how the drawing is turned: the two must agree (rows with / without box overlap)
@@ -59,8 +60,12 @@ BORROW = {
     "C18": ALGEBRA,
     # exact crossing parameters come from the exact line solver; they become exact vertices only if the split addresses
     # the segment they were computed on and cuts it at them
-    "C13": [("C14", "r14_3"), ("C14", "r14_5"), ("C15", "r15_4"), ("C15", "r15_5"), ("C18", "r18_10")],
+    # ... and the exact moments are the Green sums of R04.1 / R04.2
+    "C13": [("C14", "r14_3"), ("C14", "r14_5"), ("C15", "r15_4"), ("C15", "r15_5"), ("C18", "r18_10"), ("C04", "r04_1"),
+            ("C04", "r04_2")],
     # factories build their curve through from_vertices / the segments setter
+    # the pieces of a split are cut by the segment-level splitters
+    "C15": [("C18", "r18_10")],
     "C16": CHAIN + SIGN + VERTICES + [("C02", "r02_1"), ("C02", "r02_2")],     # ... and are observed through `p in shape`
     # directly constructed composites answer containment like the operator-built ones
     "C19": [("C03", "r03_2"), ("C03", "r03_2b"), ("C03", "r03_3")],
